@@ -172,6 +172,7 @@ type VC struct {
 	recSpecs map[string]*recSpecInfo
 	nameCount map[string]int
 	lemma     *Lemma
+	entryCtx  *SpecCtx
 	lemmaPkg  *ssa.Package
 	noSafety bool
 	qname string
